@@ -1,19 +1,20 @@
 #!/bin/bash
-# tools/mutcheck.sh <PROP> <patch.diff> <worktree> [tier]
-# Applies a seeded change to a scratch worktree of /repo (never to /repo itself while workers
-# build from it), runs one check against that tree with its own build directory, prints the
-# verdict line, and restores the worktree.
+# tools/mutcheck.sh <PROP> <patch.diff|-> <worktree> [tier]
+# Runs one check against a scratch worktree of /repo with a seeded change applied, from a
+# PRIVATE COPY of /verif (sources, generated Coq files, build output), so that nothing in
+# /verif itself (generated Gen*.v, evidence, replays, nsmodel) is touched by the experiment.
+# Prints the verdict lines; exit status is the check's.
 set -u
 PROP=$1; PATCH=$2; WT=$3; TIER=${4:-quick}
-git -C "$WT" checkout -q -- . && git -C "$WT" apply "$PATCH" || { echo "patch does not apply"; exit 2; }
-cp /verif/evidence/$PROP.json /tmp/evidence-$PROP.bak 2>/dev/null
-ls /verif/replays > /tmp/replays-before.txt
-VERIF_REPO="$WT" VERIF_BUILD="/tmp/build-mut-$(basename $WT)" /verif/bin/check "$PROP" --tier "$TIER" > "/tmp/mutcheck-$PROP.log" 2>&1
+SCR=/tmp/mutv-$(basename "$WT")
+git -C "$WT" checkout -q -- . || exit 2
+if [ "$PATCH" != "-" ]; then git -C "$WT" apply "$PATCH" || { echo "patch does not apply"; exit 2; }; fi
+mkdir -p "$SCR"
+rsync -a --delete --exclude .git --exclude 'replays/*.json' /verif/ "$SCR/verif/"
+( cd "$SCR/verif" && VERIF_REPO="$WT" ./bin/check "$PROP" --tier "$TIER" ) > "/tmp/mutcheck-$PROP.log" 2>&1
 rc=$?
-grep -E "VIOLATION|KNOWN-FINDING|$PROP $TIER:" "/tmp/mutcheck-$PROP.log" | tail -5
+grep -E "VIOLATION|KNOWN-FINDING|$PROP $TIER:" "/tmp/mutcheck-$PROP.log" | cut -c1-300 | tail -6
+mkdir -p /tmp/mut-replays; cp "$SCR"/verif/replays/*.json /tmp/mut-replays/ 2>/dev/null
 echo "exit=$rc"
 git -C "$WT" checkout -q -- .
-# the evidence file must only ever describe runs against /repo itself
-cp /tmp/evidence-$PROP.bak /verif/evidence/$PROP.json 2>/dev/null
-mkdir -p /tmp/mut-replays; for f in $(ls /verif/replays | grep -v -x -f /tmp/replays-before.txt); do mv /verif/replays/$f /tmp/mut-replays/; done
 exit $rc
